@@ -24,6 +24,7 @@ from vlib import q, proto
 from vlib.proto import C, T, is_c, is_t, show
 from vlib.symwalk import SymInterp
 from vlib.sym import Lin, equal
+from vlib.pat import Pat, returned
 from vlib.front import unparse, dotted, const_value
 
 A = 'phylib/io/array.py'
@@ -211,20 +212,24 @@ def s2_excerpts(ctx):
     # get_excerpts: whole data when shorter
     ge = repo.func(A, 'get_excerpts')
     data, ne, es = ge.params[:3]
-    first = None
-    for stmt in ge.body():
-        if isinstance(stmt, ast.If):
-            first = stmt
-            break
-    ok = False
-    if first is not None:
-        c = q.simple_compare(first.test)
-        if c and c[1] in ('<', '<='):
-            lhs, rhs = unparse(c[0]), unparse(c[2])
-            ok = lhs in ('len(%s)' % data, '%s.shape[0]' % data) and rhs.replace(' ', '') in ('%s*%s' % (ne, es), '%s*%s' % (es, ne)) and \
-                isinstance(first.body[0], ast.Return) and unparse(first.body[0].value) == data
-    ctx.check(ok, 'C16.S2', ge, first.test if first is not None else 'get_excerpts', 'get_excerpts returns the whole data when it is shorter than n_excerpts * excerpt_size',
-              'get_excerpts does not return the whole data when it is shorter than requested')
+    short = [i for i in ge.nodes(ast.If) if Pat().any(['len(%s) < %s * %s' % (data, ne, es), 'len(%s) <= %s * %s' % (data, ne, es), '%s.shape[0] < %s * %s' % (data, ne, es),
+                                                      '%s.shape[0] <= %s * %s' % (data, ne, es)], i.test)]
+    if short:
+        whole = bool(short[0].body) and isinstance(short[0].body[0], ast.Return) and short[0].body[0].value is not None and Pat().m(data, ge.expand(short[0].body[0].value))
+        if whole:
+            ctx.holds('C16.S2', ge, 'get_excerpts returns the whole data when it is shorter than n_excerpts * excerpt_size', short[0].test)
+        else:
+            ctx.violated('C16.S2', ge, short[0], 'get_excerpts does not return the whole data when it is shorter than requested')
+    else:
+        cmp_any = [i for i in ge.nodes(ast.If) if 'len(%s)' % data in unparse(i.test) or '%s.shape' % data in unparse(i.test)]
+        weak = [i for i in cmp_any if Pat().any(['len(%s) < %s' % (data, es), 'len(%s) <= %s' % (data, es), 'len(%s) < %s' % (data, ne), 'len(%s) <= %s' % (data, ne),
+                                                   'len(%s) < %s + %s' % (data, ne, es), 'len(%s) == 0' % data], i.test)]
+        if weak:
+            ctx.violated('C16.S2', ge, weak[0].test, 'the whole data is returned only when `%s`: data shorter than n_excerpts * excerpt_size but longer than that is cut into excerpts' % unparse(weak[0].test))
+        elif cmp_any:
+            ctx.undecided('C16.S2', ge, 'short-data test `%s` not recognised' % unparse(cmp_any[0].test), cmp_any[0].test)
+        else:
+            ctx.violated('C16.S2', ge, 'get_excerpts', 'get_excerpts does not return the whole data when it is shorter than requested (no test on the data length)')
     # data_chunk: kept bounds by default
     dc = repo.func(A, 'data_chunk')
     I2 = SymInterp(repo, unroll=1)
@@ -233,14 +238,22 @@ def s2_excerpts(ctx):
     good = [val for kind, val, st in outs if kind == 'return']
     want = 'slice(index(param(%s)' % dc.params[0]
     ok = bool(good) and all(is_t(v) and v[1] == 'index' and v[2] == T('param', dc.params[0]) for v in good)
-    exprs = [unparse(r.value) for r in dc.returns() if r.value is not None]
-    env_ok = []
-    for kind, val, st in outs:
-        if kind == 'return':
-            env_ok.append((st.env.get('i'), st.env.get('j')))
-    ctx.check(bool(env_ok) and all(e == (T('c'), T('d')) for e in env_ok) and any(x.replace(' ', '').startswith('%s[i:j' % dc.params[0]) for x in exprs),
-              'C16.S2', dc, 'data_chunk', 'data_chunk(data, (s_start, s_end, keep_start, keep_end)) slices data[keep_start:keep_end] by default',
-              'data_chunk does not slice with the kept bounds by default (bounds used: %s)' % [(show(a), show(b)) for a, b in env_ok][:2])
+    bounds = []
+    for v in good:
+        sl = [x for x in proto.subterms(v) if is_t(x) and x[1] == 'slice3']
+        if is_t(v) and v[1] == 'index' and v[2] == T('param', dc.params[0]) and sl:
+            bounds.append((sl[0][2], sl[0][3]))
+        else:
+            bounds.append(None)
+    if not bounds or any(b is None for b in bounds):
+        ctx.undecided('C16.S2', dc, 'data_chunk: the returned slice of the data was not recognised')
+    elif all(b == (T('c'), T('d')) for b in bounds):
+        ctx.holds('C16.S2', dc, 'data_chunk(data, (s_start, s_end, keep_start, keep_end)) slices data[keep_start:keep_end] by default', 'data_chunk')
+    elif all(set(b) <= {T('a'), T('b'), T('c'), T('d')} for b in bounds):
+        ctx.violated('C16.S2', dc, 'data_chunk', 'data_chunk does not slice with the kept bounds by default (bounds used: %s of (s_start=a, s_end=b, keep_start=c, keep_end=d))' %
+                     [(show(a), show(b)) for a, b in bounds][:2])
+    else:
+        ctx.undecided('C16.S2', dc, 'data_chunk: slice bounds %s not recognised' % [(show(a), show(b)) for a, b in bounds][:2])
 
 
 def p1_iter_chunks(ctx):
